@@ -73,11 +73,15 @@ class NumberType(Type):
         """
         if unit:
             if self.unit and self.unit!=unit:
+                if isinstance(self.value, (list, np.ndarray)):
+                    value = np.array(self.value, dtype=float)
+                else:
+                    value = float(self.value)
                 if env is None:
-                    self.value = Quantity(float(self.value), self.unit).value(unit)
+                    self.value = Quantity(value, self.unit).value(unit)
                 else:
                     with UnitEnvironment(env.units):
-                        self.value = Quantity(float(self.value), self.unit).value(unit)
+                        self.value = Quantity(value, self.unit).value(unit)
                 self.unit = unit
         return self
  
